@@ -17,7 +17,7 @@ must evaluate to the same results, and malformed strings must be rejected.
 import json, os, re, time
 import vlib
 
-IMPORTS = ("From Coq Require Import String.\nFrom YQ Require Import Base.Str Gen.OpTable Model.Postfix Model.Tree Model.PostProcess.\n"
+IMPORTS = ("From Coq Require Import String.\nFrom YQ Require Import Base.Str Base.Regex Gen.OpTable Gen.LexRules Model.Postfix Model.Tree Model.PostProcess Model.Lexer.\n"
            "Open Scope string_scope.")
 
 # ----------------------------------------------------------------------------
@@ -650,16 +650,18 @@ def run(chk):
     # ---------------------------------------------------------------- model correspondence (raw tokens -> tree)
     seen = {}
     mcases, morig = [], []
+
+    def add_model(text, im, sample_ok=True):
+        """the model lexes the TEXT itself (Model/Lexer.v) and must produce the same tree / error class"""
+        if text in seen or not sample_ok:
+            return
+        seen[text] = 1
+        mcases.append((vlib.coq_str(text), im.encode()))
+        morig.append(text)
+
     for i, c in enumerate(cases):
-        key = ctoks(c[2])
-        if key in seen:
-            continue
-        seen[key] = i
         # quick tier: the exhaustive operator-pair families go to the model one in three (all of them to the implementation)
-        if not thorough and terms[c[0]][1] in ("pair", "opfn") and len(seen) % 3:
-            continue
-        mcases.append((key, impl[i].encode()))
-        morig.append(i)
+        add_model(c[4], impl[i], thorough or terms[c[0]][1] not in ("pair", "opfn") or i % 3 == 0)
 
     # ---------------------------------------------------------------- malformed inputs: must be rejected
     rej = []   # (text, lexemes, kind)
@@ -747,12 +749,7 @@ def run(chk):
             if nrej_bad <= 3:
                 chk.violation({"kind": "reject", "expr": s, "mutation": kind, "impl": im}, True,
                               "a malformed expression (%s) is accepted instead of rejected" % kind)
-        if ls2 is not None and im != "ERR:lexer":
-            key = ctoks(ls2)
-            if key not in seen:
-                seen[key] = -1
-                mcases.append((key, im.encode()))
-                morig.append(("rej", s))
+        add_model(s, im)
     # `a : ]` in a plain collect: the slice default `length` is fabricated as the right operand (finding colon-close)
     cresp = vlib.yqh_parallel(parse_reqs([r[0] for r in colon_close])) if colon_close else []
     for (s_, ls2, kind), r in zip(colon_close, cresp):
@@ -764,11 +761,7 @@ def run(chk):
                 chk.known_finding("colon-close", s_)
             else:
                 chk.violation({"kind": "reject", "expr": s_, "mutation": "colon-close", "impl": im}, True, "a `:` without right operand before `]` is accepted")
-        key = ctoks(ls2)
-        if key not in seen and im != "ERR:lexer":
-            seen[key] = -1
-            mcases.append((key, im.encode()))
-            morig.append(("rej", s_))
+        add_model(s_, im)
     # permuted (postfix-style / close-before-open) inputs: must be rejected (repaired findings); the model must agree on the error class
     perm = []
     for t in base_terms[:150 if not thorough else 1500]:
@@ -790,24 +783,34 @@ def run(chk):
         if not im.startswith("ERR:"):
             accepted[kind] += 1
             chk.violation({"kind": "reject", "expr": s, "mutation": kind, "impl": im}, True, "a malformed expression (%s order) is accepted" % kind)
-        key = ctoks(ls2)
-        if key not in seen and im != "ERR:lexer":
-            seen[key] = -1
-            mcases.append((key, im.encode()))
-            morig.append(("perm", s))
+        add_model(s, im)
     chk.extra["malformed_cases"] = len(rej)
     chk.extra["permuted_accepted"] = accepted
 
     T["malformed"] = round(time.time() - chk.t0, 1)
-    mism, err = vlib.coq_mismatches(chk.workdir, "c09_cases", IMPORTS, "parse_ctoks", mcases, shard=300)
+    # lexer-level stress strings (tight spellings, findings, odd characters): model and implementation must agree on the class
+    lex_extra = ["3-1", "3 -1", "3 - 1", ".a-1", ".a - 1", ".a\t| .b", ".\t| .b", "1 *null", ".a *d .b", ".a =c .b", ".a ==.b", ".a!=.b", ".a|=.b", ".a//.b",
+                 "..", "...", ".. | .a", ".a...", ".[]", ".[]?", ".a[]?.b?", "$x", "$x-1", "\"a\\\"b\"", "\"a\\nb\"", "\"\"", "\"unterminated", "#only a comment", "# c\n.a", ".a # c",
+                 "true", "TRUE", "True", "nUlL", "~", "0x1F", "0X1f", "1.5", "1e3", "1.5e-3", "-1", "-1.5", "- 1", ".a | -1", "[-1, -2]", ".[-1]", ".[1:-1]", ".[:2]", ".[1:]", ".a[1:2]",
+                 "to_yaml", "to_yaml(3)", "toyaml", "@yaml", "@base64d", "@base64", "from_json", "flatten(2)", "flatten", "parent(2)", "parent", "line_comment", "lineComment", "head_comment=\"x\"",
+                 ".a style=\"x\"", ".a tag = \"!!str\"", ".a tag==\"x\"", "comments=\"x\"", ". comments |= \"x\"", "env(HOME)", "strenv(HOME)", "envsubst", "envsubst(ne)", "envsubst(ne, nu)",
+                 "with_entries(.)", "with(.a;.b)", "sortKeys(.)", "sort_keys(..)", "splitDoc", "split_doc", "document_index", "di", "fi", "file_index", "filename", "fileName",
+                 ".\"a b\"", ".\"a\"?", ".\"a\".b", ".a.\"b c\"[0]", "{\"a\":1}", "{\"a\": 1 }", "{ .a : .b }", "[ ]", "{ }", "[]", "{}", "( )", "()",
+                 "\u00e9", ".\u00e9", ".a\u4e2d.b", "\"\u00e9\u4e2d\"", "@", "!", "&", ".a & .b", "`", ".a;.b", ".a ; .b", "a", "abc", ".a as $x | $x", ".a ref $x | $x",
+                 "1 or2", "1and 2", "lengthkeys", "length keys", "keys[0]", "not", ".a | not", "ireduce", "array_to_map", "arrayToMap", "any_c(.a)", "any", "all_c(.)", "min", "max",
+                 ".a \n\t # c \n | \n .b", "\n", " ", "\t", "", ".a\r| .b", ".a\f.b", "1\r\n+ 2"]
+    lresp = vlib.yqh_parallel(parse_reqs(lex_extra))
+    for s_, r in zip(lex_extra, lresp):
+        chk.count(("lex", s_), nontrivial=True)
+        add_model(s_, impl_class(r))
+    mism, err = vlib.coq_mismatches(chk.workdir, "c09_cases", IMPORTS, "parse_text_ser", mcases, shard=300)
     T["model"] = round(time.time() - chk.t0, 1)
     disagreements = []
     if err:
         broken.append("model evaluation failed: " + err[-600:])
     else:
         for i, mo in mism:
-            o = morig[i]
-            text = cases[o][4] if isinstance(o, int) else o[1]
+            text = morig[i]
             disagreements.append((text, mcases[i][1].decode(), mo.decode("utf-8", "replace") if isinstance(mo, bytes) else repr(mo)))
     chk.extra["model_cases"] = len(mcases)
     chk.extra["model_disagreements"] = len(disagreements)
@@ -849,7 +852,7 @@ def run(chk):
 
     if disagreements and not chk.violations:
         d = disagreements[0]
-        chk.violation({"kind": "correspondence", "broken": "Model/PostProcess.v + Postfix.v + Tree.v vs lexer.go / expression_postfix.go / expression_parser.go",
+        chk.violation({"kind": "correspondence", "broken": "Model/Lexer.v (Gen/LexRules.v) + PostProcess.v + Postfix.v + Tree.v vs lexer_participle.go / lexer.go / expression_postfix.go / expression_parser.go",
                        "input": d[0], "impl": d[1], "model": d[2], "count": len(disagreements)}, False,
                       "model and implementation disagree on %d token sequences although every spelling parses as the term denotes" % len(disagreements))
     if broken and not chk.violations:
